@@ -11,6 +11,13 @@ from .. import _punycode
 
 RECODE_HOSTNAME_FOR = ("http:", "https:", "mailto:")
 
+# mdurl builds its encode/decode lookup tables lazily and registers each table
+# before it is filled in. Build the two tables used below now (module import is
+# serialised by the import lock), so that concurrent or re-entrant first calls of
+# normalizeLink / normalizeLinkText can never observe a partially filled table.
+mdurl.encode("")
+mdurl.decode("", mdurl.DECODE_DEFAULT_CHARS + "%")
+
 
 def normalizeLink(url: str) -> str:
     """Normalize destination URLs in links
